@@ -1416,3 +1416,193 @@ func runWSSKeep(c *Ctx, r *Reporter) {
 		}
 	}
 }
+
+// R-SCOPECHAIN: the run-time scope chain binds in the current scope and assigns to the innermost existing variable.
+//
+// A declaration creates the variable in the current scope (so an inner variable shadows an outer one and disappears
+// with its block); a look-up and an assignment walk the chain outwards from the current scope and stop at the first
+// scope that has the name. Structurally: set stores into its own table unconditionally (but for "_"); get and update
+// decide on the look-up in their own table first and otherwise hand the same name (and value) to the outer scope,
+// returning its answer; update stores only on the found edge; the evaluator declares through set and assigns a
+// variable through update.
+var ruleScopeChain = &Rule{
+	ID: "R-SCOPECHAIN",
+	Doc: "(*scope).set stores into the scope's own table; get and update look their own table up first and delegate the same name to the outer scope otherwise, update stores only where the name was found; " +
+		"declarations go through set on the current scope, assignments to a variable through update",
+	Floor: 5,
+	Run:   runScopeChain,
+}
+
+func runScopeChain(c *Ctx, r *Reporter) {
+	p, pkg := evaluatorPkg(c, r)
+	if pkg == nil {
+		return
+	}
+	ownValues := func(v ssa.Value, fn *ssa.Function) bool { // load of s.values with s the receiver
+		u, ok := v.(*ssa.UnOp)
+		if !ok {
+			return false
+		}
+		fa, ok := u.X.(*ssa.FieldAddr)
+		if !ok {
+			return false
+		}
+		_, name := fieldAddrInfo(fa)
+		return name == "values" && len(fn.Params) > 0 && fa.X == ssa.Value(fn.Params[0])
+	}
+	outerOf := func(v ssa.Value, fn *ssa.Function) bool {
+		u, ok := v.(*ssa.UnOp)
+		if !ok {
+			return false
+		}
+		fa, ok := u.X.(*ssa.FieldAddr)
+		if !ok {
+			return false
+		}
+		_, name := fieldAddrInfo(fa)
+		return name == "outer" && len(fn.Params) > 0 && fa.X == ssa.Value(fn.Params[0])
+	}
+	get := func(name string) (*FuncDecl, *ssa.Function) {
+		fd := FindFunc(pkg, name)
+		if fd == nil {
+			r.Undecided("%s not found", name)
+			return nil, nil
+		}
+		return fd, p.SSAFunc(fd.Obj)
+	}
+	// set
+	if fd, sf := get("(*scope).set"); sf != nil {
+		n, good := 0, true
+		for _, b := range sf.Blocks {
+			for _, ins := range b.Instrs {
+				if mu, ok := ins.(*ssa.MapUpdate); ok {
+					n++
+					if !(ownValues(mu.Map, sf) && len(sf.Params) == 3 && mu.Key == ssa.Value(sf.Params[1]) && mu.Value == ssa.Value(sf.Params[2])) {
+						good = false
+					}
+				}
+				if call, ok := ins.(*ssa.Call); ok && call.Call.StaticCallee() != nil {
+					good = false // a declaration does not consult or touch any other scope
+				}
+			}
+		}
+		r.Check(good && n == 1, fd.QName()+"#binds-here", p.Rel(fd.Decl.Pos()), "a declaration binds the name in this scope's own table", "(*scope).set does not simply store (name, value) in the scope's own table: a declaration in a block would change or consult an enclosing scope")
+	}
+	// get and update
+	for _, name := range []string{"(*scope).get", "(*scope).update"} {
+		fd, sf := get(name)
+		if sf == nil {
+			continue
+		}
+		var own *ssa.Lookup
+		var rec *ssa.Call
+		var stores []*ssa.MapUpdate
+		for _, b := range sf.Blocks {
+			for _, ins := range b.Instrs {
+				switch x := ins.(type) {
+				case *ssa.Lookup:
+					if ownValues(x.X, sf) && len(sf.Params) > 1 && x.Index == ssa.Value(sf.Params[1]) {
+						own = x
+					}
+				case *ssa.Call:
+					if x.Call.StaticCallee() == sf {
+						rec = x
+					}
+				case *ssa.MapUpdate:
+					stores = append(stores, x)
+				}
+			}
+		}
+		q := fd.QName()
+		pos := p.Rel(fd.Decl.Pos())
+		if own == nil || rec == nil {
+			r.Viol(q+"#innermost-first", pos, name+" must look the name up in its own table and otherwise ask the outer scope")
+			continue
+		}
+		// the recursive call: on the not-found edge, receiver s.outer, same name (and value)
+		sameArgs := outerOf(rec.Call.Args[0], sf)
+		for i := 1; i < len(rec.Call.Args) && i < len(sf.Params); i++ {
+			if rec.Call.Args[i] != ssa.Value(sf.Params[i]) {
+				sameArgs = false
+			}
+		}
+		notFound := false
+		for _, blk := range sf.Blocks {
+			if len(blk.Instrs) == 0 {
+				continue
+			}
+			ifi, ok := blk.Instrs[len(blk.Instrs)-1].(*ssa.If)
+			if !ok {
+				continue
+			}
+			if ex, ok := ifi.Cond.(*ssa.Extract); ok && ex.Tuple == ssa.Value(own) && ex.Index == 1 {
+				if edgeDominates(blk, 1, rec.Block()) {
+					notFound = true
+				}
+				for _, st := range stores {
+					if !(edgeDominates(blk, 0, st.Block()) && ownValues(st.Map, sf) && st.Key == ssa.Value(sf.Params[1])) {
+						notFound = false
+					}
+				}
+			}
+		}
+		// the outer scope's answer is returned as it is
+		handsOn := false
+		for _, ret := range returnsOf(sf) {
+			for i := range ret.Results {
+				for _, rv := range resultValues(ret, i) {
+					switch x := rv.(type) {
+					case *ssa.Call:
+						if x == rec {
+							handsOn = true
+						}
+					case *ssa.Extract:
+						if x.Tuple == ssa.Value(rec) {
+							handsOn = true
+						}
+					}
+				}
+			}
+		}
+		r.Check(sameArgs && notFound && handsOn, q+"#innermost-first", pos, "own table first; otherwise the same request goes to the outer scope and its answer is returned",
+			name+" does not (a) decide on the look-up in its own table, (b) hand the same name (and value) to s.outer on the not-found edge and (c) return that answer"+
+				map[bool]string{true: "; a store happens outside the found edge of the own look-up", false: ""}[len(stores) > 0 && !notFound]+": a variable of an enclosing scope would be shadowed or missed by an assignment or a read")
+		if name == "(*scope).update" {
+			r.Check(len(stores) == 1, q+"#stores-where-found", pos, "the value is stored in the scope that has the name", fmt.Sprintf("(*scope).update has %d stores, expected exactly one (on the found edge of its own look-up)", len(stores)))
+		} else {
+			r.Check(len(stores) == 0, q+"#read-only", pos, "a look-up does not write", "(*scope).get writes into a scope")
+		}
+	}
+	// binding sites in the evaluator
+	for _, spec := range []struct{ fn, callee, what string }{{"(*Evaluator).evalDecl", "set", "a declaration binds in the current scope"}, {"(*Evaluator).evalAssignment", "update", "an assignment to a variable changes the innermost existing variable"}} {
+		fd, sf := get(spec.fn)
+		if sf == nil {
+			continue
+		}
+		nSet, nUpd := 0, 0
+		onCurrent := true
+		for _, b := range sf.Blocks {
+			for _, ins := range b.Instrs {
+				call, ok := ins.(*ssa.Call)
+				if !ok || call.Call.StaticCallee() == nil {
+					continue
+				}
+				sc := call.Call.StaticCallee()
+				if rn := sc.Signature.Recv(); rn == nil || namedOf(rn.Type()) == nil || namedOf(rn.Type()).Obj().Name() != "scope" {
+					continue
+				}
+				switch sc.Name() {
+				case "set":
+					nSet++
+				case "update":
+					nUpd++
+				}
+				if !loadsField(call.Call.Args[0], "scope") {
+					onCurrent = false
+				}
+			}
+		}
+		good := onCurrent && ((spec.callee == "set" && nSet == 1 && nUpd == 0) || (spec.callee == "update" && nUpd == 1 && nSet == 0))
+		r.Check(good, fd.QName()+"#binds-through:"+spec.callee, p.Rel(fd.Decl.Pos()), spec.what, fmt.Sprintf("%s must go through e.scope.%s exactly once and through no other scope operation (found %d set, %d update, on the current scope: %v): %s", spec.fn, spec.callee, nSet, nUpd, onCurrent, spec.what))
+	}
+}
